@@ -344,8 +344,20 @@ class GhostFile:
 
 
 class GhostFS:
-    def __init__(self):
+    def __init__(self, initial=None):
         self.events = []
+        # what a previous (interrupted) attempt left behind: {path suffix: "dir" | "complete" | "partial"}; a partial file exists but cannot be read back
+        self.initial = dict(initial or {})
+
+    def state_of(self, path):
+        p_ = str(path)
+        for kind, q_ in reversed(self.events):
+            if q_ == p_ and (kind.startswith("open:w") or kind in ("savez", "makedirs")):
+                return "dir" if kind == "makedirs" else "complete"
+        for suffix, st_ in self.initial.items():
+            if p_.endswith(suffix):
+                return st_
+        return None
 
     def event(self, kind, path):
         self.events.append((kind, str(path)))
@@ -360,7 +372,19 @@ class GhostFS:
             return "/".join(str(p) for p in parts)
 
         def _isdir(ex, node, path):
-            return False
+            return fs.state_of(path) == "dir"
+
+        def _isfile(ex, node, path):
+            return fs.state_of(path) in ("complete", "partial")
+
+        def _load(ex, node, path, *a, **k):
+            st_ = fs.state_of(path)
+            from .symex import _Raise, Raised
+            if st_ == "partial":
+                raise _Raise(Raised("BadZipFile", ("File is not a zip file (truncated by a kill during the write)",)))
+            if st_ is None:
+                raise _Raise(Raised("FileNotFoundError", (str(path),)))
+            raise SymExError("np.load of a complete result file is not modelled")
 
         def _makedirs(ex, node, path, **k):
             fs.event("makedirs", path)
@@ -371,8 +395,8 @@ class GhostFS:
         def _time(ex, node):
             return sp.Symbol(f"time!{next(_cnt)}", real=True)
         from .symex import Namespace
-        return dict(open=_open, os=Namespace("os", {"path": Namespace("os.path", {"join": _join, "isdir": _isdir, "isfile": _isdir}), "makedirs": _makedirs}),
-                    np=Namespace("np", {"savez": _savez}), time=Namespace("time", {"time": _time}))
+        return dict(open=_open, os=Namespace("os", {"path": Namespace("os.path", {"join": _join, "isdir": _isdir, "isfile": _isfile, "exists": (lambda ex, node, path: fs.state_of(path) is not None)}), "makedirs": _makedirs}),
+                    np=Namespace("np", {"savez": _savez, "load": _load}), time=Namespace("time", {"time": _time}))
 
 
 def _with_support(cls):
